@@ -13,6 +13,22 @@ Definition bad_spec (cases : list (ctx * expr * outcome)) : list nat :=
 Definition unspecified_cases (cases : list (ctx * expr * outcome)) : list nat :=
   mismatches (fun '(c, e, o) => match sem c e with Fail ks => negb (unspecified ks) | _ => true end) cases 0.
 
+(* inputs outside the canonicity premise of C02_eval_matches_reference (non-canonical binary64 data in the context or in a
+   literal): must be empty — the harness encodes Python floats canonically; same definitions as Expr.OrderThm
+   (C02.GenOk.run_canonical_same) *)
+Definition run_canonical_val (v : pyval) : bool := match v with VFloat f => valid_binary prec emax f | _ => true end.
+Definition run_ctx_canonical (c : ctx) : bool :=
+  forallb (fun kv => match snd kv with Some v => run_canonical_val v | None => true end) (port_values c)
+  && match self_last c with Some v => run_canonical_val v | None => true end.
+Fixpoint run_lits_canonical (e : expr) : bool :=
+  match e with
+  | Lit (Some v) => run_canonical_val v
+  | Call _ args => forallb run_lits_canonical args
+  | _ => true
+  end.
+Definition noncanonical_cases (cases : list (ctx * expr * outcome)) : list nat :=
+  mismatches (fun '(c, e, _) => run_ctx_canonical c && run_lits_canonical e) cases 0.
+
 (* Expression.get_deps(): "$id" per port value read, DEPS of every called function *)
 Open Scope string_scope.
 Fixpoint model_deps (self : string) (e : expr) : list string :=
